@@ -600,3 +600,61 @@ def replay_stmt_parse(rp):
     why, t = check_stmt_parse(rp['abbr'], rp['config'], places)
     print('markup.parse(%r, %r) -> %r\nproperty oracle (places + merged mentions per element): %s' % (rp['abbr'], rp['config'], t, why or 'holds'))
     return 1 if why else 0
+
+
+# ---------------------------------------------------------------- statements through expand, formatting off (C03_statement_expand)
+def render_places(places, cfg):
+    """Nested tags: every element once, in document order, its attributes through the output table, its text,
+    then its children."""
+    import copy
+    import attr_util as au
+    from emmet.config import Config
+    opts = Config(copy.deepcopy(cfg)).options
+
+    def build(i, d):
+        out = []
+        while i < len(places) and places[i][0] == d:
+            e = places[i][1]
+            kids, j = build(i + 1, d + 1)
+            spec = au.element_spec(au_mentions(e), opts)
+            text = e['text'][1] if e.get('text') is not None else ''
+            out.append('<%s%s>%s%s</%s>' % (e['name'], ''.join(au.render_attr(r) for r in spec), text, kids, e['name']))
+            i = j
+        return ''.join(out), i
+    return build(0, 0)[0]
+
+
+def run_stmt_expand_stream(ctx, prop, n):
+    import re
+    from emmet.snippets import markup_snippets
+    from emmet.snippets import xsl_snippets
+    from markup_util import run_cases
+    rng = ctx.rng
+    cases = []
+    k = 0
+    while len(cases) < n:
+        k += 1
+        cfg = json.loads(json.dumps(STMT_CFGS[k % len(STMT_CFGS)]))
+        cfg.setdefault('options', {})['output.format'] = False
+        jsx = cfg.get('syntax') == 'jsx'
+        xs = rand_stmt(rng, jsx)
+        for e, _ in xs:
+            nm = e['name']
+            if nm in markup_snippets or nm.lower() in markup_snippets or nm in xsl_snippets or re.match(r'(?i)lorem|label$', nm):
+                e['name'] = 'x' + nm
+            if jsx and 'A' <= e['name'][0] <= 'Z':
+                e['name'] = 'x' + e['name']
+            if e.get('text') is not None and e['text'][1].startswith('<'):
+                e['text'] = None
+        abbr = stmt_text(xs)
+        if any(ch in abbr for ch in '\r\n'):
+            continue            # statement domain: values and text free of line breaks
+        cases.append((abbr, cfg, {'want': render_places(places_of(xs), cfg)}))
+
+    def oracle(abbr, cfg, meta, r):
+        if r != ('ok', meta['want']):
+            return 'output %r, the written statement gives <<%s>>' % (r, json.dumps(meta['want']))
+        return None
+    model = ctx.model('markup')
+    run_cases(ctx, model, cases, prop + 'stmtexpand', oracle, mode='expand')
+    return cases
